@@ -892,3 +892,47 @@ def evidence_programs(rng, bw, n):
         a.op("STOP")
         out.append(a.assemble())
     return out
+
+
+def cyclic_evidence_programs(rng, n):
+    """storage read-mask-write patterns that create cyclic type evidence (C03's quantifier): values copied between 2-4
+    slots in a cycle, with masks / shifts applied on the way (the 36-byte witness of the known non-terminating
+    unification is the first shape: caller -> slot a; (slot a & address mask) -> slot b; slot b -> slot a)."""
+    out = []
+    masks = [0xff, 0xffff, 0xffffffff, 2 ** 64 - 1, 2 ** 128 - 1, ADDR_MASK, 2 ** 256 - 1]
+    for _ in range(n):
+        a = Asm()
+        k = rng.randrange(2, 5)
+        slots = rng.sample(range(0, 8), k)
+        seed = rng.randrange(4)
+        if seed == 0:
+            a.op("CALLER").push(slots[0]).op("SSTORE")
+        elif seed == 1:
+            a.push(4).op("CALLDATALOAD").push(slots[0]).op("SSTORE")
+        elif seed == 2:
+            a.op("CALLER").push(ADDR_MASK).op("AND").push(slots[0]).op("SSTORE")
+        for i in range(k):
+            src, dst = slots[i], slots[(i + 1) % k]
+            a.push(src).op("SLOAD")
+            r = rng.random()
+            if r < 0.55:
+                m = rng.choice(masks)
+                if rng.random() < 0.5:
+                    a.push(m).op("AND")
+                else:
+                    a.push(m)
+                    a.raw([0x90])       # SWAP1
+                    a.op("AND")
+            elif r < 0.75:
+                sh = rng.choice([8, 96, 128, 160])
+                a.push(sh).op("SHR").push(rng.choice(masks)).op("AND")
+            elif r < 0.85:
+                a.op("ISZERO").op("ISZERO")
+            if rng.random() < 0.3:
+                # read-modify-write into the destination (packed field)
+                sh = rng.choice([0, 8, 128, 160])
+                a.push(sh).op("SHL").push(dst).op("SLOAD").push((2 ** 256 - 1) ^ (ADDR_MASK << sh) if sh + 160 <= 256 else 0).op("AND").op("OR")
+            a.push(dst).op("SSTORE")
+        a.op("STOP")
+        out.append(a.assemble())
+    return out
